@@ -10,7 +10,14 @@ def conf_nontrivial(tok, res):
         return res.startswith("ok ") or res == "err"
     if op == "dom":
         return res != "ok" or tok[3] != "-"
-    if op == "fmt":
+    if op in ("fmt", "load", "sload", "sx", "cx", "dfl", "env"):
+        return True
+    if op == "fl":
+        # argv that was parsed (some flag took effect) or refused
+        return res == "err" or len(tok) > 3
+    if op == "cf":
+        return res.startswith("ok") and len(tok) > 6
+    if op in ("cval", "sval", "nr", "bweq"):
         return True
     return op in ("prstr", "prrt", "tmpl", "port")
 
@@ -27,7 +34,7 @@ def conf_class(r):
 
 PROP = {
         "level": "proof",
-        "gens": ["ProxyMsg"],
+        "gens": ["ProxyMsg", "Flags", "TypedConf"],
         "theorems": [
             "Frp.C18.tables_ok", "Frp.C18.tables_covered", "Frp.C18.marshal_fields_exact",
             "Frp.C18.recon_shape", "Frp.C18.types_exact", "Frp.C18.complete_get",
@@ -45,6 +52,16 @@ PROP = {
             "Frp.C18.printHoldsOn_sound", "Frp.C18.model_printHoldsOn", "Frp.C18.trim_idem",
             "Frp.C18.bw_reparse", "Frp.C18.bwHoldsOn_sound", "Frp.C18.norm_bw_id", "Frp.C18.pair_spec",
             "Frp.C18.numbersPiece_span", "Frp.C18.numbersPiece_single", "Frp.C18.model_rtRangesHoldsOn",
+            "Frp.C18.flags_documented", "Frp.C18.flag_names_unique", "Frp.C18.flag_lookup_documented",
+            "Frp.C18.sent_fields_bound", "Frp.C18.flag_sets_bound_field", "Frp.C18.flag_default_mismatches",
+            "Frp.C18.dashboard_tls_flag_witness", "Frp.C18.flHoldsOn_sound", "Frp.C18.typed_unmarshal_shape",
+            "Frp.C18.visitor_types_exact", "Frp.C18.visitor_steps_expected", "Frp.C18.visitor_steps_indep",
+            "Frp.C18.visitor_complete_closed", "Frp.C18.visitor_name", "Frp.C18.visitor_bind_addr",
+            "Frp.C18.visitor_server_name", "Frp.C18.xtcp_visitor_defaults", "Frp.C18.visitor_other_fields",
+            "Frp.C18.proxy_complete_get", "Frp.C18.cfHoldsOn_sound", "Frp.C18.model_cfHoldsOn_visitor",
+            "Frp.C18.model_cfHoldsOn_proxy", "Frp.C18.client_accept", "Frp.C18.visitor_accept",
+            "Frp.C18.server_accept", "Frp.C18.model_clientHoldsOn", "Frp.C18.model_visitorHoldsOn",
+            "Frp.C18.model_serverHoldsOn",
         ],
         "engines": [
             {"name": "conf", "quick_n": 12000, "thorough_n": 60000, "thorough_seeds": 5,
@@ -54,9 +71,19 @@ PROP = {
                 "boundary numbers, bandwidth literals, both modes, with and without the JSON wire) through the real "
                 "MarshalToMsg and NewProxyConfigurerFromMsg; range / bandwidth literals incl. a malformed stream; "
                 "ports; domain validation with mixed-case names; TOML/YAML/JSON renderings and templated documents "
-                "(differential). Non-trivial = reconstruction carrying several non-zero fields, a parse that "
-                "succeeded or was refused, a domain verdict with at least one custom domain; distinct = distinct "
-                "(op line, result) pairs",
+                "(differential). One logical proxy / visitor definition (k=v list) through six real paths — in memory, "
+                "TOML / YAML / JSON / legacy INI files on disk via LoadClientConfig (strict on/off), MarshalJSON→UnmarshalJSON of "
+                "Typed{Proxy,Visitor}Config, generated argv on a cobra command carrying the real Register*Flags — "
+                "each followed by the real Complete and compared with the interpreted Complete tables; raw argv "
+                "(all value kinds, both word separators, shorthands, repeated / unknown / malformed flags, ssh mode) "
+                "on the proxy, visitor and server commands against the regenerated registration table; flag "
+                "defaults against file defaults; whole client / server documents with includes, start filter, "
+                "environment values and number-range templates through LoadClientConfig / LoadServerConfig "
+                "(differential against the in-memory path); server and client-common settings as argv against the "
+                "three file formats; client-side, visitor and server validators; parseNumberRange; "
+                "BandwidthQuantity.Equal. Non-trivial = reconstruction carrying several non-zero fields, a parse that "
+                "succeeded or was refused, a domain verdict with at least one custom domain, any loader / flag / "
+                "validator op; distinct = distinct (op line, result) pairs",
         "trusted": COMMON_TRUST + [
             "translator /verif/translate (gen_proxymsg.go, go/ast): the statement shapes it accepts are listed in "
             "its source; anything else aborts the run as a broken tie. Lean file Frp/Gen/ProxyMsg.lean is "
@@ -64,33 +91,61 @@ PROP = {
             "on every run",
             "hand-written expectation Frp.C18.serverFields (which configuration fields the server acts on, per type)",
             "hand-written models Frp/Model/ConfNum.lean (ParseInt/Itoa/TrimSpace ASCII, port ranges, range numbers, "
-            "bandwidth quantity) and Frp/Model/Validate.lean, tied by the conf engine",
+            "bandwidth quantity) and Frp/Model/Validate.lean (server-side, client-side, visitor and server "
+            "validators), tied by the conf engine",
+            "translators gen_flags.go (every flag registration of pkg/config/flags.go: name, shorthand, bound field "
+            "path, kind, default, ssh-mode guard, persistence; WordSepNormalizeFunc; the Set bodies of the three flag "
+            "value types are recognised verbatim) and gen_typedconf.go (visitorConfigTypeMap, the visitor Complete "
+            "statements, the statement sequences of Typed{Proxy,Visitor}Config.UnmarshalJSON/MarshalJSON): statement "
+            "shapes listed in the sources, anything else aborts the run as a broken tie",
+            "hand-written expectations Frp.C18.expProxyBase/expDomain/expProxyTyped/expVisitor/expClient/expServer "
+            "(the documented flags), Frp.C18.flagOfField, Frp.C18.fileDefaults, Frp.C18.expVisitorSteps, "
+            "Frp.C18.proxySpec, Frp.C18.expUnmarshal",
+            "hand-written model Frp/Model/Flags.lean of spf13/pflag's value syntax and argv forms for the flag "
+            "kinds frp uses (third-party code; tied by the `fl` op, values outside the modelled fragment are skipped)",
         ],
         "assumptions": [
             "generic record model: fields are untyped values; Go's static typing of msg.NewProxy / the config structs is not modelled",
             "strconv.ParseFloat is modelled for plain decimals with at most 9 digits; other literals are counted and skipped",
             "TrimSpace / ToLower are modelled for ASCII; non-ASCII range strings are counted and skipped",
-            "the agreement of the TOML, YAML and JSON loaders, strict mode and text/template rendering are "
-            "differential tests of the real third-party parsers (ops fmt, tmpl), not covered by any theorem",
-            "command-line flags (pkg/config/flags.go) are not covered by this check",
+            "the agreement of the TOML, YAML and JSON loaders, strict mode, includes, the start filter and "
+            "text/template rendering are differential tests of the real loaders and third-party parsers (ops fmt, "
+            "tmpl, load, sload, sx, cx) and field-by-field comparisons with the Complete model (op cf), not "
+            "covered by any theorem about the parsers themselves",
+            "flags: CSV quoting, non-decimal integer literals and bare non-boolean flags that are not last are "
+            "outside the pflag model (counted, skipped); nil and empty collections are one value on the flag and "
+            "JSON-marshal paths",
+            "legacy INI configuration files (pkg/config/legacy): only one proxy / visitor section and the [common] "
+            "keys that have flags, with INI-safe values, are compared with the other paths (ops cf via=ini, sx, cx); "
+            "the legacy parser's own range expansion, includes and plugin parameters are not covered; non-positive "
+            "xtcp visitor numbers (replaced by defaults in the legacy parser, by design) are not generated",
+            "client plugin options and health-check headers are never set in generated definitions",
             "annotation keys are generated valid only (k8s IsQualifiedName is not modelled)",
         ],
     }
 
 META = {
-        "engine": "lean+translate(ProxyMsg)+harness(conf)",
+        "engine": "lean+translate(ProxyMsg,Flags,TypedConf)+harness(conf)",
         "design_ref": "DESIGN.md §6 C18, §7 item 13",
-        "technique": "Lean 4 theorems over marshal/unmarshal assignment tables regenerated from the Go source "
-                     "(go/ast translator) + proved textual round trips + differential correspondence with the real "
-                     "MarshalToMsg / NewProxyConfigurerFromMsg / parsers / validators",
+        "technique": "Lean 4 theorems over marshal/unmarshal assignment tables, flag registration tables and "
+                     "Complete / UnmarshalJSON statement tables regenerated from the Go source (go/ast translators) + "
+                     "proved textual round trips + differential correspondence with the real MarshalToMsg / "
+                     "NewProxyConfigurerFromMsg / LoadClientConfig / LoadServerConfig / Register*Flags / parsers / validators",
         "text": "Proof (partial): for each of the eight proxy types and every configuration record, interpreting the "
                 "assignment statements of MarshalToMsg and then of NewProxyConfigurerFromMsg (UnmarshalFromMsg, "
                 "Complete) as they stand in the source now yields, on every field the server acts on, the client's "
                 "value up to two stated normalisations (bandwidth text re-parse, empty mode = client). Accepted "
                 "domain configurations lie outside the subdomain host for lower-case names; for mixed case the "
-                "negation is proved (known finding C18-domain-case) together with the theorem for the repaired check.",
-        "note": "Trusted: Lean kernel, the translator's statement-shape recogniser, the hand-written list of "
-                "server-relevant fields, the numeric/validation models (tied by 12k generated ops per quick run). "
-                "Not covered by theorems: agreement of the three file-format parsers, strict mode, template "
-                "rendering (differential only); flags.",
+                "negation is proved (known finding C18-domain-case) together with the theorem for the repaired check. "
+                "Every documented flag is registered with the documented shorthand, bound field, kind and default; "
+                "names, shorthands and bound fields are unique on every command; every field MarshalToMsg sends has "
+                "its documented flag bound to it or no flag at all; flag defaults equal file defaults except four "
+                "recorded ones; `--dashboard_tls_mode` never takes effect (witness theorem, recorded finding). "
+                "Visitor and proxy defaults after Complete are given in closed form for every record; "
+                "Typed{Proxy,Visitor}Config.UnmarshalJSON have the expected statement sequence; definitions accepted "
+                "by the client-side, visitor and server validators satisfy the documented constraints.",
+        "note": "Trusted: Lean kernel, the translators' statement-shape recognisers, the hand-written lists of "
+                "server-relevant fields, documented flags and defaults, the numeric/validation/pflag models (tied by "
+                "12k generated ops per quick run). Not covered by theorems: the three file-format parsers, strict "
+                "mode, includes, template rendering (differential only); the legacy INI parser beyond single sections.",
     }
